@@ -18,6 +18,7 @@ type Loaded struct {
 	Pkgs  []*packages.Package
 	SSA   []*ssa.Package
 	ByPath map[string]*ssa.Package
+	All    map[*types.Package]*packages.Package
 }
 
 func repoDir() string {
@@ -48,18 +49,24 @@ func loadPackages(patterns []string) (*Loaded, error) {
 	if len(errs) > 0 {
 		return nil, fmt.Errorf("package errors:\n%s", strings.Join(errs, "\n"))
 	}
-	prog, spkgs := ssautil.Packages(pkgs, ssa.NaiveForm|ssa.GlobalDebug|ssa.InstantiateGenerics)
-	for _, sp := range spkgs {
+	// SSA packages are created for every dependency too, but bodies are built only for the root
+	// packages here; bodies of crossplane / crossplane-runtime helpers are built on demand when
+	// a call to them is inlined.
+	prog, _ := ssautil.AllPackages(pkgs, ssa.NaiveForm|ssa.GlobalDebug|ssa.InstantiateGenerics)
+	l := &Loaded{Prog: prog, Pkgs: pkgs, ByPath: map[string]*ssa.Package{}, All: map[*types.Package]*packages.Package{}}
+	for _, p := range pkgs {
+		sp := prog.Package(p.Types)
 		if sp != nil {
 			sp.Build()
-		}
-	}
-	l := &Loaded{Prog: prog, Pkgs: pkgs, SSA: spkgs, ByPath: map[string]*ssa.Package{}}
-	for _, sp := range spkgs {
-		if sp != nil {
+			l.SSA = append(l.SSA, sp)
 			l.ByPath[sp.Pkg.Path()] = sp
 		}
 	}
+	packages.Visit(pkgs, nil, func(p *packages.Package) {
+		if p.Types != nil {
+			l.All[p.Types] = p
+		}
+	})
 	return l, nil
 }
 
@@ -89,10 +96,14 @@ func funcKey(f *ssa.Function) string {
 	} else if f.Object() != nil && f.Object().Pkg() != nil {
 		pkgname = f.Object().Pkg().Name()
 	}
-	if recv := f.Signature.Recv(); recv != nil {
-		return "(" + typeKey(recv.Type()) + ")." + f.Name()
+	name := f.Name()
+	if i := strings.Index(name, "["); i > 0 {
+		name = name[:i] // generic instantiation
 	}
-	return pkgname + "." + f.Name()
+	if recv := f.Signature.Recv(); recv != nil {
+		return "(" + typeKey(recv.Type()) + ")." + name
+	}
+	return pkgname + "." + name
 }
 
 // typeKey renders a type as pkgname.Name (with leading * for pointers).
@@ -129,6 +140,26 @@ func calleeKey(c *ssa.CallCommon) (key string, full string) {
 	}
 	if b, ok := c.Value.(*ssa.Builtin); ok {
 		return "builtin." + b.Name(), "builtin." + b.Name()
+	}
+	// a call through a function-typed struct field: field:<pkg.Type>.<field>
+	if ld, ok := c.Value.(*ssa.UnOp); ok {
+		if fa, ok := ld.X.(*ssa.FieldAddr); ok {
+			if pt, ok := fa.X.Type().Underlying().(*types.Pointer); ok {
+				if st, ok := pt.Elem().Underlying().(*types.Struct); ok {
+					k := "field:" + typeKey(pt.Elem()) + "." + st.Field(fa.Field).Name()
+					return k, "field:" + types.TypeString(pt.Elem(), nil) + "." + st.Field(fa.Field).Name()
+				}
+			}
+		}
+	}
+	if f, ok := c.Value.(*ssa.Field); ok {
+		if st, ok := f.X.Type().Underlying().(*types.Struct); ok {
+			k := "field:" + typeKey(f.X.Type()) + "." + st.Field(f.Field).Name()
+			return k, k
+		}
+	}
+	if n, ok := c.Value.Type().(*types.Named); ok {
+		return "functype:" + typeKey(n), "functype:" + types.TypeString(n, nil)
 	}
 	return "<dynamic>", "<dynamic>"
 }
